@@ -27,6 +27,8 @@
 #include <new>
 #include <utility>
 
+#include <dispenso/platform.h>
+
 namespace dispenso {
 
 /**
@@ -416,14 +418,32 @@ class SmallVector {
       ptr[i].~T();
     }
     if (!isInline()) {
-      ::operator delete(storage_.heap_.ptr);
+      deallocateHeap(storage_.heap_.ptr);
+    }
+  }
+
+  // Plain operator new only guarantees alignof(std::max_align_t); over-aligned element types need
+  // an aligned allocation or their heap elements end up misaligned.
+  static constexpr bool kOverAligned = alignof(T) > alignof(std::max_align_t);
+
+  static T* allocateHeap(size_type n) {
+    void* mem = kOverAligned ? detail::alignedMalloc(n * sizeof(T), alignof(T))
+                             : ::operator new(n * sizeof(T));
+    return static_cast<T*>(mem);
+  }
+
+  static void deallocateHeap(T* ptr) noexcept {
+    if (kOverAligned) {
+      detail::alignedFree(ptr);
+    } else {
+      ::operator delete(ptr);
     }
   }
 
   // Grow to heap storage with the specified capacity.
   // Moves existing elements, frees old heap if applicable, sets heap bit.
   void growToHeap(size_type newCap) {
-    T* newData = static_cast<T*>(::operator new(newCap * sizeof(T)));
+    T* newData = allocateHeap(newCap);
     T* oldData = data();
     size_type sz = rawSize();
 
@@ -433,7 +453,7 @@ class SmallVector {
     }
 
     if (!isInline()) {
-      ::operator delete(storage_.heap_.ptr);
+      deallocateHeap(storage_.heap_.ptr);
     }
 
     storage_.heap_.ptr = newData;
